@@ -229,7 +229,19 @@ def check_C01(ctx, unit):
                     step_ok = st is not None and st[0] == "+=" and std_unwrap(st[1]).kind == "DeclRefExpr" \
                         and std_unwrap(st[1]).d["d"] == item
                     bp = path(RA.resolve_local(f, lp.bound, inits)) if lp.bound is not None else None
-                    bound_ok = bool(bp) and bp[-1] == "length" and slbv is not None and bp[0].endswith("#%d" % slbv) and lp.op == "<"
+                    # the loop must continue only while the WHOLE object fits: off + item_size <= frame.length.
+                    # (`off < length` is enough only if length is a multiple of the item size, which nothing guarantees:
+                    # slabsize need only be a multiple of the page size.)
+                    bound_is_len = bool(bp) and bp[-1] == "length" and slbv is not None and bp[0].endswith("#%d" % slbv)
+                    offv = std_unwrap(lp.offset) if lp.offset is not None else None
+                    off_is_item = offv is not None and ((offv.kind == "DeclRefExpr" and offv.d["d"] == item) or (
+                        item in inits and canon(RA.resolve_local(f, offv, inits)) == canon(RA.resolve_local(f, inits[item], inits))))
+                    bound_ok = bound_is_len and off_is_item and lp.op == "<="
+                    if bound_is_len and not bound_ok:
+                        problems.append("the carving loop runs while %s %s frame.length: an object is placed whenever its START lies inside "
+                                        "the slab, so the last object sticks out when (slabsize - overhead) is not a multiple of the item "
+                                        "size; it must run while off + item_size <= frame.length" % (
+                                            "off" if lp.offset is None else "off + " + _strip_ids(canon(lp.offset)), lp.op))
                     wh = std_unwrap(RA.resolve_local(f, f.node(fl[0].get("pargs")[0]), inits))
                     where_ok = False
                     if wh.kind == "BinaryOperator" and wh.op == "+":
@@ -241,7 +253,7 @@ def check_C01(ctx, unit):
                     if step_ok and bound_ok and where_ok and lp.start_canon() == "0":
                         okc = True
                     else:
-                        problems.append("carving loop: starts at %s (want 0); step by item size: %s; runs while off < frame.length: %s; "
+                        problems.append("carving loop: starts at %s (want 0); step by item size: %s; runs while off + item_size <= frame.length: %s; "
                                         "objects at frame.address + off: %s" % (lp.start_canon(), step_ok, bound_ok, where_ok))
             if not okc and not any("carving loop" in p for p in problems):
                 problems.append("no carving loop placing freelist nodes found")
@@ -662,6 +674,70 @@ def check_C02(ctx, unit):
                 problems.append("no normal exit")
             ctx.inst("E.reuse-before-map", "%s::free_in_slab_%s" % (POOL, tag), not problems, f.loc,
                      "; ".join(sorted(set(problems))) if problems else "re-inserted iff `available` was null before the push (both entry values, path-sensitive)", f)
+
+
+def check_size_arithmetic(ctx, unit, rule="B8.size-arithmetic"):
+    """The page rounding of a large request and the reservation sum (area + padding [+ superblock]) cannot wrap around
+    for any request length: otherwise allocate() returns a block far smaller than requested."""
+    ctx.rule(rule, "no unsigned addition on the request length in allocate() or on the area size in _construct_large() can wrap "
+             "for any length that reaches it (interval analysis with branch refinement; the helper's parameter range is the "
+             "range of the caller's argument)", 2)
+    from . import rules_bounds as RB
+    for inst in pool_instantiations(unit):
+        tag = inst[len(POOL):]
+        bn = _byname(pool_fns(unit, inst))
+        for f in bn.get("allocate", []):
+            lenp = f.params()[0]["d"]
+            res = RB.check_no_wrap_adds(ctx, rule, f, {lenp: RB.Iv(0, (1 << 64) - 1)}, label="%s::allocate%s" % (POOL, tag))
+            if not res:
+                raise AnalysisBroken("anchor vanished: size arithmetic in allocate")
+            # range of the argument handed to _construct_large
+            from . import rules_atomic as RA
+            for c in [n for n in f.events() if n.is_call() and n.callee and n.callee["n"] == "_construct_large" and n.args]:
+                env = {lenp: RB.Iv(0, (1 << 64) - 1)}
+                lz = {d: i for d, i in RA.local_inits(f).items() if not RA._reassigned(f, d) and (i.get("bits") or i.strip().get("bits"))}
+                env["__inits__"] = lz
+                pk = RB.param_keyof(f)
+                for cond, truth in flow.facts_at(f, c.id):
+                    env = RB.refine_env(env, cond, truth, lambda n: pk(n))
+                argiv = RB.ieval(c.args[0], env, f)
+                for g in bn.get("_construct_large", []):
+                    RB.check_no_wrap_adds(ctx, rule, g, {g.params()[0]["d"]: argiv}, label="%s::_construct_large%s" % (POOL, tag))
+
+
+def check_counter_balance(ctx, unit, rule="E.counter-balance"):
+    """A per-frame counter that allocation raises and that an assertion on the free path requires to be non-zero must be
+    lowered when a block is freed: a counter that only ever rises wraps after 2^width allocations out of one slab, and the
+    next (perfectly valid) free trips the assertion."""
+    ctx.rule(rule, "a per-slab counter raised by allocate() and asserted non-zero by the free path is lowered by the free path "
+             "(a counter that only rises wraps in long alloc/free churn)", 1)
+    for inst in pool_instantiations(unit):
+        tag = inst[len(POOL):]
+        fns = pool_fns(unit, inst)
+        recs = [r for r in unit.records if r["qn"] == inst + "::slab_frame"]
+        if not recs:
+            raise AnalysisBroken("anchor vanished: slab_frame of %s" % inst)
+        import re as _re
+        cands = [fl["n"] for fl in recs[0]["fields"] if _re.match(r"^(unsigned |signed )?(int|long|short|char|size_t|unsigned)$", fl["t"])]
+        for fld in cands:
+            incs, decs, asserted = [], [], []
+            for f in fns:
+                for n in f.events():
+                    if n.kind == "UnaryOperator" and n.op in ("++", "--") and path(n.children[0]) and path(n.children[0])[-1] == fld:
+                        (incs if n.op == "++" else decs).append((f, n))
+                    if n.kind == "CompoundAssignOperator" and n.op in ("+=", "-=") and path(n.children[0]) and path(n.children[0])[-1] == fld:
+                        (incs if n.op == "+=" else decs).append((f, n))
+                    if n.kind == "MemberExpr" and n.get("mk") == "Field" and n.m == fld and n.get("mac") == "FRG_ASSERT":
+                        asserted.append((f, n))
+            if not incs:
+                continue
+            free_side = [x for x in asserted if not any(x[0].did == i[0].did for i in incs)]
+            ok = bool(decs) or not free_side
+            ctx.inst(rule, "%s::slab_frame::%s%s" % (POOL, fld, tag), ok, incs[0][1].loc,
+                     ("raised at %d site(s) (%s), never lowered, and asserted non-zero in %s: wraps after 2^%s allocations from one slab" % (
+                         len(incs), ", ".join(sorted({i[0].name for i in incs})), ", ".join(sorted({a[0].name for a in free_side})),
+                         "32" if "int" in [fl["t"] for fl in recs[0]["fields"] if fl["n"] == fld][0] else "N")) if not ok else
+                     "raised at %d site(s), lowered at %d" % (len(incs), len(decs)), incs[0][0])
 
 
 def check_stale_after_remove(ctx, unit, rule="K.stale-after-remove"):
